@@ -126,4 +126,34 @@ def splitLocalPath (b : Bundle) (p : Str) : Option (Str × Str) :=
       let sub := (sp.dropWhile (· ≠ '/')).drop 1
       if b.pkgDirs.any (fun e => e.2 = dir) then some (dir, sub) else none
 
+/-- Go's `<` on strings is byte-wise; on valid UTF-8 that is the lexicographic order of the code
+points -/
+def strLt : Str → Str → Bool
+  | [], [] => false
+  | [], _ :: _ => true
+  | _ :: _, [] => false
+  | a :: as, b :: bs =>
+    if a.toNat < b.toNat then true else if b.toNat < a.toNat then false else strLt as bs
+
+/-- the preference of `SourceForLocalPath` among the addresses sharing a directory: shorter
+(`len`, bytes) first, equally long ones in string order -/
+def addrBefore (a b : Str) : Bool :=
+  utf8Len a < utf8Len b || (utf8Len a == utf8Len b && strLt a b)
+
+/-- the most preferred element of a non-empty candidate list, whatever its order -/
+def pickAddr : Str → List Str → Str
+  | best, [] => best
+  | best, x :: xs => pickAddr (if addrBefore x best then x else best) xs
+
+/-- `SourceForLocalPath` in full: (package address, sub-path).  The Go code ranges over a map; the
+model folds over the table in its stored order and the choice is proved independent of that
+order (`C18_reverse_order_free`). -/
+def sourceForLocalPath (b : Bundle) (p : Str) : Option (Str × Str) :=
+  match splitLocalPath b p with
+  | none => none
+  | some (dir, sub) =>
+    match (b.pkgDirs.filter (fun e => e.2 = dir)).map (·.1) with
+    | [] => none
+    | c :: cs => some (pickAddr c cs, sub)
+
 end Slug
